@@ -198,9 +198,6 @@ func sig(in Input) string {
 			}
 		}
 	}
-	if (in.Op == "update" || in.Op == "updates") && (in.PayVia == "map_db" || in.PayVia == "") && in.SetKey != "db" && len(in.Sets) > 0 && !in.Skip {
-		return "setcolumn-field-name-vs-map-db-key"
-	}
 	return ""
 }
 
@@ -347,9 +344,6 @@ func (g *gen) input(edge bool) Input {
 		in.PayVia = lib.Pick(r, []string{"map_db", "map_field"})
 	}
 	in.SetKey = lib.Pick(r, []string{"field", "field", "db"})
-	if in.PayVia == "map_db" && (in.Op == "update" || in.Op == "updates") {
-		in.SetKey = "db" // the other spelling is a known finding, replayed from the corpus
-	}
 	in.Skip = r.Chance(1, 8)
 	if in.Shape == "array_val" || (in.Shape == "struct" && (in.Op == "create" || in.Op == "save")) {
 		in.Skip = false
@@ -490,9 +484,6 @@ func main() {
 		case 5:
 			in.Sets = []int{r.Intn(n)}
 			in.Fails = []int{r.Intn(n)}
-		}
-		if sig(in) != "" && sig(base) == "" {
-			in.Sets = nil
 		}
 		add(kind, in)
 	}
